@@ -565,6 +565,8 @@ func call(t *vlib.T, what string, f func()) bool {
 // other alarms are not hidden behind the per-shard violation cap while a
 // finding is being triaged. The variable is never set by the driver.
 func finding(t *vlib.T, class, format string, a ...any) {
+	nFindings++
+	t.Count("finding:"+class, 1)
 	for _, m := range strings.Split(os.Getenv("C03_MUTE"), ",") {
 		if m == class {
 			t.Count("muted:"+class, 1)
@@ -573,6 +575,10 @@ func finding(t *vlib.T, class, format string, a ...any) {
 	}
 	t.FailClass(class, format, a...)
 }
+
+// nFindings counts calls of finding in this process (used to tell attributed
+// from unattributed failures of a case).
+var nFindings int
 
 // lastStack is the abbreviated stack of the last panic recovered by catch.
 var lastStack string
